@@ -44,6 +44,11 @@ type Checker struct {
 	Extra     map[string]interface{}
 	allBackends bool
 	noSafety    bool
+	// obligations that ran out of time while the machine was busy are decided again at the end, one at a time
+	// and with three times the time limits, before a verdict is given
+	retry   []Oblig
+	retryMu sync.Mutex
+	tmul    int
 }
 
 func NewChecker(prop, tier string, seed int) *Checker {
@@ -260,6 +265,42 @@ func (c *Checker) batch(obs []Oblig) {
 	wg.Wait()
 }
 
+// tmo scales a time limit for the uncontended second pass
+func (c *Checker) tmo(d time.Duration) time.Duration {
+	if c.tmul > 1 {
+		return d * time.Duration(c.tmul)
+	}
+	return d
+}
+
+// RunRetries decides the obligations that timed out in the parallel phase again, with the machine to themselves
+func (c *Checker) RunRetries() {
+	c.retryMu.Lock()
+	todo := c.retry
+	c.retry = nil
+	c.retryMu.Unlock()
+	if len(todo) == 0 {
+		return
+	}
+	c.tmul = 3
+	c.mu.Lock()
+	c.Notes = append(c.Notes, fmt.Sprintf("%d obligation(s) ran out of time in the parallel phase and were decided again sequentially with 3x time limits", len(todo)))
+	c.mu.Unlock()
+	sem := make(chan struct{}, 2)
+	var wg sync.WaitGroup
+	for i := range todo {
+		o := todo[i]
+		wg.Add(1)
+		go func() {
+			defer wg.Done()
+			sem <- struct{}{}
+			defer func() { <-sem }()
+			c.single(o)
+		}()
+	}
+	wg.Wait()
+}
+
 func (c *Checker) single(o Oblig) {
 	vars := inputVars(o.PC, o.Cond)
 	if os.Getenv("SNESVC_DEBUG") != "" {
@@ -277,10 +318,23 @@ func (c *Checker) single(o Oblig) {
 		if d := os.Getenv("SNESVC_DUMP"); d != "" && strings.Contains(o.Name, d) {
 			os.WriteFile("/tmp/dumpg_"+sanitizeFile(o.Name)+".smt2", []byte(qg.Text), 0o644)
 		}
-		if rg := solve2(qg, 3*time.Second); rg.Result == "unsat" {
+		if rg := solve2(qg, c.tmo(3*time.Second)); rg.Result == "unsat" {
 			oo := o
 			c.add(ObResult{Name: o.Name, Kind: o.Kind, Result: "discharged", Backend: rg.Backend + " (quantified hypotheses only as instances at the goal's skolem constants)", Seconds: rg.Seconds, Size: len(qg.Text), ob: &oo})
 			return
+		}
+		// second matching round on the instances of the first
+		if g2 := withInstHintsR(full, true, 2); g2 != ground {
+			qg2 := SMTQuery([]*Term{g2}, nil)
+			if d := os.Getenv("SNESVC_DUMP"); d != "" && strings.Contains(o.Name, d) {
+				os.WriteFile("/tmp/dumpg2_"+sanitizeFile(o.Name)+".smt2", []byte(qg2.Text), 0o644)
+			}
+			if rg := solve2(qg2, c.tmo(3*time.Second)); rg.Result == "unsat" {
+				oo := o
+				c.add(ObResult{Name: o.Name, Kind: o.Kind, Result: "discharged", Backend: rg.Backend + " (quantified hypotheses only as instances, two matching rounds)", Seconds: rg.Seconds, Size: len(qg2.Text), ob: &oo})
+				return
+			}
+			qg = qg2
 		}
 	}
 	// a goal merged from several paths (a conjunction of implications) is decided path by path
@@ -295,9 +349,9 @@ func (c *Checker) single(o Oblig) {
 			go func() {
 				defer wg.Done()
 				fi := And(o.PC, Not(ci))
-				r := Solve(SMTQuery([]*Term{withInstHints(fi, true)}, nil), false)
+				r := solveT(SMTQuery([]*Term{withInstHints(fi, true)}, nil), false, c.tmo(quickTimeout))
 				if r.Result != "unsat" {
-					r = Solve(SMTQuery([]*Term{withInstHints(fi, false)}, nil), false)
+					r = solveT(SMTQuery([]*Term{withInstHints(fi, false)}, nil), false, c.tmo(quickTimeout))
 				}
 				mu.Lock()
 				secs += r.Seconds
@@ -320,14 +374,14 @@ func (c *Checker) single(o Oblig) {
 		if d := os.Getenv("SNESVC_DUMP"); d != "" && strings.Contains(o.Name, d) {
 			os.WriteFile("/tmp/dump0_"+sanitizeFile(o.Name)+".smt2", []byte(q0.Text), 0o644)
 		}
-		if r0 := runSolver("z3-new", q0, 3*time.Second); r0.Result == "unsat" {
+		if r0 := runSolver("z3-new", q0, c.tmo(3*time.Second)); r0.Result == "unsat" {
 			oo := o
 			c.add(ObResult{Name: o.Name, Kind: o.Kind, Result: "discharged", Backend: "z3-new", Seconds: r0.Seconds, Size: len(q0.Text), ob: &oo})
 			return
 		}
 	}
 	if qg != nil {
-		if rg := Solve(qg, false); rg.Result == "unsat" {
+		if rg := solveT(qg, false, c.tmo(quickTimeout)); rg.Result == "unsat" {
 			oo := o
 			c.add(ObResult{Name: o.Name, Kind: o.Kind, Result: "discharged", Backend: rg.Backend + " (quantified hypotheses only as instances at the goal's skolem constants)", Seconds: rg.Seconds, Size: len(qg.Text), ob: &oo})
 			return
@@ -337,7 +391,7 @@ func (c *Checker) single(o Oblig) {
 	if d := os.Getenv("SNESVC_DUMP"); d != "" && strings.Contains(o.Name, d) {
 		os.WriteFile("/tmp/dump_"+sanitizeFile(o.Name)+".smt2", []byte(q.Text), 0o644)
 	}
-	r := Solve(q, c.allBackends)
+	r := solveT(q, c.allBackends, c.tmo(quickTimeout))
 	res := ObResult{Name: o.Name, Kind: o.Kind, Backend: r.Backend, Seconds: r.Seconds, Tried: r.Tried, Size: len(q.Text)}
 	oo := o
 	res.ob = &oo
@@ -353,6 +407,13 @@ func (c *Checker) single(o Oblig) {
 		res.Result = "undecided"
 		res.Output = r.Output
 	default:
+		if c.tmul <= 1 {
+			// out of time while other obligations were being solved: decided again at the end (RunRetries)
+			c.retryMu.Lock()
+			c.retry = append(c.retry, o)
+			c.retryMu.Unlock()
+			return
+		}
 		// unknown / timeout: the obligation is not discharged; reported as a violation without an input
 		res.Result = "violated"
 		res.Output = "no model: " + strings.Join(r.Tried, " ") + "\n" + r.Output
